@@ -400,7 +400,10 @@ def replay_endpoints(fl, FA, vals=None, cls="Arc", which="end", seed=0, n=2000, 
         want = h if (cls == "Arc" and which == "end") else 0.0
         got = float(t.membership(x))
         done += 1
-        if math.isnan(got) or abs(got - want) > 1e-6 * h:
+        # the centre c = s + r is a rounded number: at an end point the root's argument r^2 - (x - c)^2 is off by about 2 r ulp(|c|), i.e. the value by
+        # h * sqrt(2 ulp(|c|) / r) - visible for a narrow support far from the origin (A-REAL: rounding of VALUES is outside the statement; NaN is not rounding)
+        tol = h * max(1e-6, 8.0 * math.sqrt(2.220446049250313e-16 * max(abs(a), abs(b)) / (abs(b - a) / 2.0)))
+        if math.isnan(got) or abs(got - want) > tol:
             return {"failed": True, "class": f"endpoint:{cls}:{which}", "expected": f"{want!r} (the documented value at x = {which})", "observed": repr(got),
                     "call": f"fl.{cls}('t', {a!r}, {b!r}, {h!r}).membership({x!r})", "cases": done}
     return {"failed": False, "cases": done, "distinct": done}
